@@ -239,6 +239,43 @@ Fixpoint run_stream (fuel : nat) (c : scfg) (o : oracles) (s : session) (w : str
 Definition run_bytes (c : scfg) (o : oracles) (w : str) : list item * list entry * session :=
   run_stream (length w + 2) c o init w.
 
+(** ** STARTTLS on the wire
+    TLS itself is transparent to the session (the same lines arrive, decrypted); what is NOT transparent is the
+    moment of the switch: the session answers 220, wraps the connection and starts a NEW reader on it
+    (handler.go: s.text = textproto.NewConn(tlsConn)) - whatever plaintext the old reader had buffered behind the
+    STARTTLS line is gone, it is never executed (no "STARTTLS injection").  The input is the plaintext the client
+    sent before its handshake followed by what it sent under TLS; [tl] is the length of the latter.  After the step
+    that answers STARTTLS with 220, everything but the last [tl] bytes of the remaining input is dropped.  (If no
+    STARTTLS is accepted the client of the correspondence check goes on in plaintext and nothing is dropped.) *)
+Definition accepted_starttls (it : item) (r : list rline) : bool :=
+  match it, r with
+  | L Starttls, [(220%Z, false)] => true
+  | _, _ => false
+  end.
+Definition drop_plain (tl : nat) (rest : str) : str := skipn (length rest - tl) rest.
+
+Fixpoint run_stream_tls (fuel : nat) (c : scfg) (o : oracles) (s : session) (w : str) (tl : nat)
+  : list item * list entry * session :=
+  match fuel with
+  | O => ([], [], s)
+  | S f =>
+      match st s with
+      | QUIT => ([], [], s)
+      | _ =>
+          let '(it, rest) := next_item o s w in
+          match step c s it with
+          | Ok s' r d =>
+              let rest' := if accepted_starttls it r then drop_plain tl rest else rest in
+              let '(its, tr, sf) := run_stream_tls f c o s' rest' tl in
+              (it :: its, (it, r, d) :: tr, sf)
+          | _ => ([], [], s)
+          end
+      end
+  end.
+
+Definition run_bytes_tls (c : scfg) (o : oracles) (plain secure : str) : list item * list entry * session :=
+  run_stream_tls (length plain + length secure + 2) c o init (plain ++ secure) (length secure).
+
 (** ** The connection as the session's reader sees it
 
     The client's bytes arrive in chunks; between two chunks the client pauses for longer than the
